@@ -13,7 +13,8 @@ KNOWN_FINDINGS.txt); the archive-index footer keeps its two slicing panics (find
 C07 model `Integrity.Aidx.footerCheck`, reused here.
 
   blte      BlteHeader / ExtendedHeader / ChunkInfo table / ChunkData::read_options /
-            estimate_decompressed_size / LZ4 size prefix   (blte/{header,chunk,mod,compression}.rs)
+            estimate_decompressed_size / LZ4 size prefix / encrypted-chunk header of
+            decrypt_chunk_with_keys with the key-store lookup   (blte/{header,chunk,mod,compression}.rs)
   encoding  EncodingHeader + validate + data_size guard + the six allocations (encoding/file.rs)
   install   InstallHeader + validate + entry-count guard (install/manifest.rs, tag.rs)
   download  DownloadHeader V1–V3 + validate + entry-count guard (download/manifest.rs)
@@ -123,6 +124,78 @@ def front (b : Bytes) : Front :=
               -- `estimate_decompressed_size` clamped to the cap (fix bbad53e), then the codecs
               { verdict := .pass, allocs := a, capped := min ((infos.map (·.2)).sum) maxDecomp :: c }
             | _ => { verdict := v, allocs := a }
+
+/-! ### encrypted chunks (`decrypt_chunk_with_keys`, blte/compression.rs) -/
+
+/-- Header of an encrypted chunk payload (after the `E` mode byte), in source order: the 16-byte
+floor, then per field the length guard and the indexed read / slice. An index or slice out of
+range is the `panic` verdict; the guards are what keeps it unreachable. `guards = false` is the
+same code with the four per-field guards taken out (only the floor left).
+`known n` = `key_store.get(n).is_some()`: the key lookup comes BEFORE the IV-size, IV and type
+reads, so those are reached only for a key name that is in the store. `pass` = the cipher runs
+(Salsa20 takes 4- and 8-byte IVs, ARC4 any 16-byte key) and the body — inner mode sniffing and
+the codecs — decides. -/
+def encFrontG (guards : Bool) (known : Nat → Bool) (d : Bytes) : Verdict :=
+  if d.length < 16 then .err                                          -- "Encrypted chunk too short"
+  else if d.length ≤ 0 then .panic                                    -- data[0]
+  else if byteAt d 0 ≠ 8 then .err                                    -- key_name_size != 8
+  else if guards = true ∧ d.length < 1 + 8 then .err                  -- "... too short for key name"
+  else if d.length < 1 + 8 then .panic                                -- data[1..9]
+  else if known (leNat (slice d 1 8)) = false then .err               -- "Encryption key not found"
+  else if guards = true ∧ d.length < 9 + 1 then .err                  -- "... too short for IV size"
+  else if d.length ≤ 9 then .panic                                    -- data[9]
+  else
+    let ivs := byteAt d 9
+    if ivs ≠ 4 ∧ ivs ≠ 8 then .err                                    -- InvalidIvSize
+    else if guards = true ∧ d.length < 10 + ivs then .err             -- "... too short for IV"
+    else if d.length < 10 + ivs then .panic                           -- data[10..10 + iv_len]
+    else if guards = true ∧ d.length < 10 + ivs + 1 then .err         -- "... too short for encryption type"
+    else if d.length ≤ 10 + ivs then .panic                           -- data[10 + iv_len], data[11 + iv_len..]
+    else
+      let et := byteAt d (10 + ivs)
+      if et ≠ 0x53 ∧ et ≠ 0x41 then .err                              -- "Unknown encryption type"
+      else .pass
+
+/-- `decrypt_chunk_with_keys` as written. -/
+def encFront (known : Nat → Bool) (d : Bytes) : Verdict := encFrontG true known d
+
+/-- the payloads (without mode byte) of the `E` chunks, in table order: the walk of `chunks`. -/
+def encChunks : List (Nat × Nat) → Bytes → List Bytes
+  | [], _ => []
+  | (cs, _) :: infos, rest =>
+    if cs = 0 then []
+    else match rest with
+      | [] => []
+      | m :: body =>
+        if !modeOk m.toNat then []
+        else if body.length < cs - 1 then []
+        else (if m.toNat = 69 then [body.take (cs - 1)] else []) ++ encChunks infos (body.drop (cs - 1))
+
+/-- first verdict that is not `pass`. -/
+def firstStop : List Verdict → Verdict
+  | [] => .pass
+  | .pass :: vs => firstStop vs
+  | v :: _ => v
+
+/-- `BlteFile::parse` + `decompress_with_keys(key_store)`: `front`, then — where it passes — the
+encrypted chunks: a single-chunk file whose chunk is `E` is `SingleChunkEncrypted`; in a chunk
+table every `E` chunk goes through `decrypt_chunk_with_keys` in order and the first header that
+stops (or, before it, the body of an earlier chunk) ends the call. Allocations are those of
+`front`. -/
+def frontKeys (known : Nat → Bool) (b : Bytes) : Front :=
+  let f := front b
+  if f.verdict ≠ .pass then f
+  else if beNat (slice b 4 4) = 0 then
+    match b.drop 8 with
+    | m :: _ => if m.toNat = 69 then { f with verdict := .err } else f
+    | [] => f
+  else match recSize (byteAt b 8) with
+    | none => f
+    | some rec =>
+      match table rec (beNat (slice b 9 3)) (b.drop 12) with
+      | none => f
+      | some (infos, rest) =>
+        { f with verdict := firstStop ((encChunks infos rest).map (encFront known)) }
 
 end Blte
 
